@@ -322,6 +322,7 @@ pub fn run_resolver() {
         let r = std::panic::catch_unwind(|| match w[0] {
             "conv" => h::is_valid_primitive_conversion(&ty(w[1]), &ty(w[2])),
             "bitcast" => h::is_valid_bit_cast(&ty(w[1]), &ty(w[2])),
+            "operands" => h::operand_types_match(ty(w[1]), ty(w[2])),
             "binop" => {
                 let op = match w[1] {
                     "Add" => BinaryOp::Add, "Subtract" => BinaryOp::Subtract, "Multiply" => BinaryOp::Multiply,
